@@ -301,7 +301,7 @@ void build_users() {
 void run_create(vf::Ctx &c) {
   const std::vector<EnvVal> &alist = c.thorough() ? g_attr_inputs : g_attr_small;
   int nattr = (int)alist.size();
-  if (nattr > 400) nattr = 400;
+  if (nattr > 150) nattr = 150;  // one fork per execution: keep the thorough tier within minutes
   const EnvVal &attrs = alist[c.pick("attrs", nattr)];
   const EnvVal &svc = g_svc_inputs[c.pick("svc", 3)];
   const UserAttrs &user = c.pick_from("user", g_users);
@@ -407,8 +407,8 @@ void run_create(vf::Ctx &c) {
 }
 
 void setup(vf::Options &o) {
-  o.split_depth = 3;
-  o.deadline_s = o.thorough ? 900 : 100;
+  o.split_depth = 2;  // wide picks follow: deeper splitting only floods the work queue
+  o.deadline_s = o.thorough ? 900 : 150;
   build_env_inputs(o.thorough);
   build_users();
   unsetenv("OTEL_RESOURCE_ATTRIBUTES");
